@@ -1,4 +1,170 @@
-import NB.Base
+/-
+  C14 — operations fail only in their documented cases, and checked variants never panic.
+
+  The model makes every way an operation can go wrong an explicit outcome: a documented panic
+  class, or `.internal tag` for every assertion / debug assertion / overflow / precondition /
+  fuel-exhaustion site.  Each property's own theorems have the shape
+      model op args = (if <documented condition> then .error <documented class> else .ok <exact value>)
+  so "fails exactly in the documented cases, never with an internal error, and terminates" is a
+  corollary for each operation family.  This file collects those corollaries in one table
+  (`Documented x cond cls`), over the theorems of C01–C03, C05–C07, C11, C12, C18.
+  What the model cannot exhibit — a fault of the real process, a hang of the real loop — is
+  observed by running every stream in the debug AND release profiles under a watchdog.
+-/
+import NB.Props.C01
+import NB.Props.C02
+import NB.Props.C03
+import NB.Props.C05
+import NB.Props.C06
+import NB.Props.C07
+import NB.Props.C11
+import NB.Props.C12
+import NB.Props.C13
+import NB.Props.C18
 namespace NB
-theorem c14_placeholder : True := trivial
+
+/-- `x` fails exactly when `cond` holds, then with class `cls`; otherwise it returns a value.
+    In particular it never yields `.internal _` (unless `cls` itself is) and always terminates
+    (the model functions are total; fuelled loops have sufficiency theorems). -/
+def Documented {α} (x : Except Panic α) (cond : Prop) (cls : Panic) : Prop :=
+  (cond → x = .error cls) ∧ (¬ cond → ∃ v, x = .ok v)
+
+theorem documented_of_ite {α} {x : Except Panic α} {cond : Prop} [Decidable cond] {cls : Panic} {v : α}
+    (h : x = if cond then .error cls else .ok v) : Documented x cond cls := by
+  constructor
+  · intro hc; rw [h, if_pos hc]
+  · intro hc; exact ⟨v, by rw [h, if_neg hc]⟩
+
+theorem documented_no_internal {α} {x : Except Panic α} {cond : Prop} {cls : Panic}
+    (h : Documented x cond cls) (hcls : ∀ t, cls ≠ .internal t) [Decidable cond] (tag : String) :
+    x ≠ .error (.internal tag) := by
+  by_cases hc : cond
+  · rw [h.1 hc]; intro e; injection e with e; exact hcls tag e
+  · obtain ⟨v, hv⟩ := h.2 hc; rw [hv]; intro e; cases e
+
+/-- a `checked_*` method / an infallible operation: always returns -/
+def NeverFails {α} (x : Except Panic α) : Prop := ∃ v, x = .ok v
+
+/-! ### C01: subtraction below zero is the only failure of + and − -/
+
+theorem c14_sub (P : Params) (a b : List Nat) (ha : Canon a) (hb : Canon b) :
+    Documented (subRef P a b) (val a < val b) .underflow :=
+  documented_of_ite (subRef_spec P a b ha hb)
+
+theorem c14_sub_refval (P : Params) (a b : List Nat) (ha : Canon a) (hb : Canon b) :
+    Documented (subRefVal P a b) (val a < val b) .underflow :=
+  documented_of_ite (subRefVal_spec P a b ha hb)
+
+theorem c14_checked_sub (P : Params) (a b : List Nat) (ha : Canon a) (hb : Canon b) :
+    NeverFails (checkedSub P a b) := ⟨_, checkedSub_spec P a b ha hb⟩
+
+theorem c14_bigint_add_sub (P : Params) (a b : BigInt) (ha : a.Canon) (hb : b.Canon) :
+    NeverFails (BigInt.add P a b) ∧ NeverFails (BigInt.sub P a b) :=
+  ⟨⟨_, bigint_add_spec P a b ha hb⟩, ⟨_, bigint_sub_spec P a b ha hb⟩⟩
+
+/-! ### C02: multiplication never fails (no carry-overflow assert, no add2/sub2 failure, fuel suffices) -/
+
+open NB.Mul in
+theorem c14_mul (P : Params) (hP : P.ValidMul) (a b : List Nat) (ha : Canon a) (hb : Canon b) :
+    NeverFails (mulRef P a b) := ⟨_, mul_spec P hP a b ha hb⟩
+
+/-! ### C03: division fails exactly for a zero divisor; checked forms never fail -/
+
+theorem c14_div_rem (P : Params) (a b : List Nat) (ha : Canon a) (hb : Canon b) :
+    Documented (divRemRef P a b) (b = []) .divzero :=
+  documented_of_ite (div_rem_spec P a b ha hb)
+
+theorem c14_checked_div (P : Params) (a b : List Nat) (ha : Canon a) (hb : Canon b) :
+    NeverFails (checkedDiv P a b) := ⟨_, checkedDiv_spec P a b ha hb⟩
+
+theorem c14_checked_div_rem_euclid (P : Params) (a b : List Nat) (ha : Canon a) (hb : Canon b) :
+    NeverFails (checkedDivRemEuclid P a b) := ⟨_, checkedDivRemEuclid_spec P a b ha hb⟩
+
+theorem c14_bigint_div_rem (P : Params) (a b : BigInt) (ha : a.Canon) (hb : b.Canon) :
+    Documented (BigInt.divRem P a b) (b.val = 0) .divzero :=
+  documented_of_ite (bigint_divRem_spec P a b ha hb)
+
+/-! ### C05: modpow fails exactly for a negative exponent or a zero modulus -/
+
+theorem c14_modpow (P : Params) (hP : P.ValidMonty) (b e m : List Nat) (hb : Canon b) (he : Canon e) (hm : Canon m) :
+    Documented (modpowU P b e m) (m = []) .zeromod := by
+  constructor
+  · intro h; subst h; exact modpow_zero_mod P b e
+  · intro h
+    have : val m ≠ 0 := fun h0 => h (canon_val_zero hm h0)
+    exact ⟨_, modpow_spec P hP b e m hb he hm this⟩
+
+theorem c14_bigint_modpow (P : Params) (hP : P.ValidMonty) (b e m : BigInt) (hb : b.Canon) (he : e.Canon) (hm : m.Canon) :
+    (e.val < 0 → BigInt.modpow P b e m = .error .negexp) ∧
+    (¬ e.val < 0 → m.val = 0 → BigInt.modpow P b e m = .error .zeromod) ∧
+    (¬ e.val < 0 → m.val ≠ 0 → NeverFails (BigInt.modpow P b e m)) := by
+  have h := bigint_modpow_spec P hP b e m hb he hm
+  refine ⟨fun h1 => by rw [h, if_pos h1], fun h1 h2 => by rw [h, if_neg h1, if_pos h2],
+          fun h1 h2 => ⟨_, by rw [h, if_neg h1, if_neg h2]⟩⟩
+
+theorem c14_modinv_zero (a : Nat) : modinvU a 0 = .error .zeromod := modinv_zero_mod a
+
+theorem c14_modinv (a m : Nat) (hm : m ≠ 0) : NeverFails (modinvU a m) := by
+  obtain ⟨r, h, _⟩ := modinv_spec a m hm; exact ⟨r, h⟩
+
+/-! ### C06: radix conversions fail exactly for an out-of-range radix -/
+
+open NB.Radix in
+theorem c14_to_radix (P : Params) (u : List Nat) (hc : Canon u) (r : Nat) :
+    Documented (toRadixLe P u r) (¬ (2 ≤ r ∧ r ≤ 256)) .radix := by
+  have h := to_radix_le_outcome P u hc r
+  constructor
+  · intro hc'; rw [h, if_neg hc']
+  · intro hc'; have : 2 ≤ r ∧ r ≤ 256 := Classical.not_not.mp hc'; exact ⟨_, by rw [h, if_pos this]⟩
+
+open NB.Radix in
+theorem c14_to_str (P : Params) (x : BigInt) (hc : x.Canon) (r : Nat) :
+    Documented (toStrRadixI P x r) (¬ (2 ≤ r ∧ r ≤ 36)) .radix := by
+  have h := to_str_outcome P x hc r
+  constructor
+  · intro hc'; rw [h, if_neg hc']
+  · intro hc'; have : 2 ≤ r ∧ r ≤ 36 := Classical.not_not.mp hc'; exact ⟨_, by rw [h, if_pos this]⟩
+
+/-! ### C07: shifts fail exactly for a negative amount (capacity overflow is out of scope) -/
+
+open NB.C07 in
+theorem c14_shl (a : List Nat) (k : Int) (ha : Canon a) (hcap : a ≠ [] → k.toNat / BITS < USIZE_RANGE) :
+    Documented (biguintShl a k) (k < 0) .negshift :=
+  ⟨fun h => shl_negative a k h, fun h => ⟨_, shl_spec a k ha (by omega) hcap⟩⟩
+
+open NB.C07 in
+theorem c14_shr_negative (a : List Nat) (k : Int) (hk : k < 0) : biguintShr a k = .error .negshift :=
+  shr_negative a k hk
+
+/-! ### C11: roots fail exactly for an even root of a negative number or degree zero -/
+
+open NB.Roots NB.IntVal in
+theorem c14_nth_root {S : GuessSrc} (x : Int) (n : Nat)
+    (h2 : SqrtOk S x.natAbs) (h3 : CbrtOk S x.natAbs) (h4 : NthOk S x.natAbs n) :
+    (x < 0 ∧ n % 2 = 0 → bigintNthRoot S x n = .error .imaginary) ∧
+    (¬ (x < 0 ∧ n % 2 = 0) → n = 0 → bigintNthRoot S x n = .error .zeroroot) ∧
+    (¬ (x < 0 ∧ n % 2 = 0) → n ≠ 0 → NeverFails (bigintNthRoot S x n)) := by
+  have h := bigint_nth_root_spec (S := S) x n h2 h3 h4
+  refine ⟨fun h1 => by rw [h, if_pos h1], fun h1 h2' => by rw [h, if_neg h1, if_pos h2'],
+          fun h1 h2' => ⟨_, by rw [h, if_neg h1, if_neg h2']⟩⟩
+
+/-! ### C12: pow fails only with the (out-of-scope) capacity class -/
+
+open NB.Pow in
+theorem c14_pow_big (f : Form) (x e : Nat) :
+    Documented (powBig f x e) (2 ≤ x ∧ 2 ^ 128 ≤ e) .capacity :=
+  documented_of_ite (pow_big_spec f x e)
+
+/-! ### C18: bounded sampling fails exactly for a zero bound -/
+
+open NB.Rand in
+theorem c14_gen_below (rp : RandParams) (hv : rp.Valid) (bound : List Nat) (hb : Canon bound)
+    (tape : Tape) (ht : WordsOk tape) (p : Panic) :
+    genBiguintBelow rp bound tape = .error p ↔ p = .emptyrange ∧ val bound = 0 :=
+  below_panic_iff rp hv bound hb tape ht p
+
+/- non-vacuity -/
+example : Documented (subRef NB.Gen.P [5] [0, 1]) (val [5] < val [0, 1]) .underflow :=
+  c14_sub _ _ _ (by decide) (by decide)
+
 end NB
